@@ -525,6 +525,8 @@ PROCS = {
     'remote_name_connected': {'world': 'classic_conn', 'complete': [(0x07, None)]},
     'le_encrypt': {'world': 'le_conn', 'complete': [(0x08, None), (0x59, None)]},
     'create_cis': {'world': 'le_conn', 'complete': [(0x3E, 0x19), (0x3E, 0x2A)]},
+    # Disconnect addressed to a CIS handle (configured but never established / established)
+    'disconnect_cis': {'world': 'le_conn', 'complete': [(0x05, None)]},
 }
 
 PROC_SITUATIONS = {
@@ -538,6 +540,7 @@ PROC_SITUATIONS = {
     'remote_name_connected': ['present'],
     'le_encrypt': ['no_key'],
     'create_cis': ['accept', 'reject'],
+    'disconnect_cis': ['never_established', 'established'],
 }
 
 FAULTS = ['peer_disconnect', 'local_disconnect', 'peer_vanish']
@@ -583,6 +586,8 @@ def proc_command(w, proc, situation, ctxd):
         return hci.HCI_LE_Enable_Encryption_Command(
             connection_handle=ctxd['handle'], random_number=bytes(8), encrypted_diversifier=0, long_term_key=bytes(range(16))
         )
+    if proc == 'disconnect_cis':
+        return hci.HCI_Disconnect_Command(connection_handle=ctxd['cis_handle'], reason=0x13)
     if proc == 'create_cis':
         return hci.HCI_LE_Create_CIS_Command(cis_connection_handle=[ctxd['cis_handle']], acl_connection_handle=[ctxd['handle']])
     raise ValueError(proc)
@@ -609,10 +614,10 @@ def run_proc_case(proc, situation, fault, at):
             ctxd['peer_handle'] = pc.handle
         elif kind == 'le' and situation.startswith('present'):
             w.run(w.devices[1].start_advertising(advertising_interval_min=500.0, advertising_interval_max=500.0))
-        if proc == 'create_cis':
+        if proc in ('create_cis', 'disconnect_cis'):
             from bumble.device import CigParameters
 
-            if situation == 'accept':
+            if situation in ('accept', 'established', 'never_established'):
                 w.devices[1].on('cis_request', lambda link: w.loop.create_task(w.devices[1].accept_cis_request(link)))
             else:
                 w.devices[1].on('cis_request', lambda link: w.loop.create_task(w.devices[1].reject_cis_request(link)))
@@ -622,6 +627,8 @@ def run_proc_case(proc, situation, fault, at):
                 )
             )
             ctxd['cis_handle'] = handles[0]
+            if proc == 'disconnect_cis' and situation == 'established':
+                w.run(w.devices[0].create_cis([(handles[0], cc)]))
         if situation == 'present_role_switch_refused':
             # the acceptor asks to become central although the initiator does not allow a role switch
             w.loop.create_task(w.devices[1].accept(role=hci.Role.CENTRAL, timeout=None))
@@ -679,6 +686,8 @@ def run_proc_case(proc, situation, fault, at):
         if proc.startswith('disconnect') or proc in ('le_remote_features', 'le_encrypt'):
             # only events about our handle
             hb = struct.pack('<H', ctxd.get('handle', 0x0E11) if situation != 'dead_handle' else 0x0E11)
+            if proc == 'disconnect_cis':
+                hb = struct.pack('<H', ctxd['cis_handle'])
             completions = [e for e in completions if hb in e[3:8]]
         res = {'messages': msgs[0], 'responses': rs, 'completions': len(completions), 'excs': [e[1][:100] for e in excs][:2]}
         # verdict
